@@ -177,7 +177,7 @@ Qed.
 End Trivia.
 
 (** * the oal grammar *)
-From Oal Require Import Grammar.
+From Oal Require Import Grammar GrammarProofs.
 
 Definition strip_trivia (toks : list N) : list N := toks' Grammar.is_trivia toks.
 
@@ -196,6 +196,21 @@ Corollary oal_parse_same_up_to_trivia n toks1 toks2 :
   strip_trivia toks1 = strip_trivia toks2 ->
   rmap Grammar.is_trivia toks1 (parse_pure n toks1) = rmap Grammar.is_trivia toks2 (parse_pure n toks2).
 Proof. intros H. rewrite <- !oal_parse_ignores_trivia, H. reflexivity. Qed.
+
+(** the memoising parser too: whenever it answers on both token lists, the answers correspond *)
+Lemma rmap_fuel toks r : rmap Grammar.is_trivia toks r = Fuel -> r = Fuel.
+Proof. destruct r; cbn [rmap]; intros H; try discriminate; reflexivity. Qed.
+
+Corollary oal_parse_memo_ignores_trivia n1 n2 toks r1 st1 r2 st2 :
+  parse_memo n1 toks = (r1, st1) -> parse_memo n2 (strip_trivia toks) = (r2, st2) ->
+  r1 <> Fuel -> r2 <> Fuel -> r2 = rmap Grammar.is_trivia toks r1.
+Proof.
+  intros H1 H2 Hr1 Hr2.
+  destruct (oal_memo_transparent _ _ _ _ H1 Hr1) as [m1 E1]. destruct (oal_memo_transparent _ _ _ _ H2 Hr2) as [m2 E2].
+  pose proof (oal_parse_stable m1 (Nat.max m1 m2) toks r1 E1 Hr1 (Nat.le_max_l _ _)) as S1.
+  pose proof (oal_parse_stable m2 (Nat.max m1 m2) (strip_trivia toks) r2 E2 Hr2 (Nat.le_max_r _ _)) as S2.
+  rewrite oal_parse_ignores_trivia, S1 in S2. symmetry. exact S2.
+Qed.
 
 (** non-vacuity: [let a = num;] with and without blanks and a comment *)
 Example ex_trivia :
